@@ -987,7 +987,9 @@ static int write_char(void *context, cif_value_tp *char_value, int allow_text) {
                          * Folding moves the start of the text to the beginning of a line, so a leading semicolon
                          * then needs the same protection as one following a newline.
                          */
-                        int prefix = (analysis.contains_text_delim || (fold && (text[0] == UCHAR_SEMI)));
+                        int prefix = (analysis.contains_text_delim || (fold && ((text[0] == UCHAR_SEMI)
+                                /* without prefixes a fold point may not precede a semicolon; long runs leave none nearby */
+                                || (analysis.max_semi_run >= FOLDING_WINDOW))));
 
                         /* XXX: should really flag more specifically for whether prefixing is enabled */
                         if (!allow_text || (prefix && IS_CIF1(context))) {
